@@ -42,6 +42,12 @@ def main():
     if r.returncode != 0:
         print("could not apply patch:", r.stderr[-500:])
         return 2
+    # the checks rewrite evidence/<id>.json and replays/<id>/: keep the unchanged tree's files and put them back afterwards
+    saved = {}
+    for c in checks:
+        for f in [ROOT / "evidence" / f"{c}.json"] + sorted((ROOT / "replays" / c).glob("*")):
+            if f.is_file():
+                saved[f] = f.read_bytes()
     try:
         demo = next(iter(sorted(d.glob("demo*.py"))), None)
         if demo:
@@ -63,6 +69,8 @@ def main():
                 res["checks"].setdefault(c, []).append({"seed": int(seed), "exit": r.returncode, "verdict": viol[0] if viol else (lines[-1] if lines else r.stderr[-300:]),
                                                         "replay": replay, "wall_s": round(time.time() - t0, 1)})
     finally:
+        for f, b in saved.items():
+            f.write_bytes(b)
         if a.in_repo:
             sh("git -C /repo checkout -- .")
         else:
